@@ -31,15 +31,31 @@ RULE = ('populations of trace shards (4-12 instances, some still scheduled; 0-9 
         'and between the earlier pass and the run under test some are removed and some removed and configured again (the '
         'server trace is keyed by name and outlives the node); trace.app.zk.list_traces by bare application name, by '
         'explicit wildcard and by instance id must return every instance that is scheduled, has a live finished record or '
-        'whose record sits in a present /finished.history snapshot (applications with both live and archived instances).')
+        'whose record sits in a present /finished.history snapshot (applications with both live and archived instances). '
+        'Retrieval WHILE the archiver runs (8 small cells per shard, next to the listing case): the real state API reads a cell '
+        '(3-16 finished records, most expired, batch sizes 1-4, optionally earlier snapshots) with its watch notifications queued '
+        'and delivered one at a time; one iteration of the real archiver service runs at a seeded ZooKeeper read of the API - '
+        'during its start-up, or during the callback of a later /finished notification after further records were written '
+        '(lagging watch), or right after its last read. After the start-up and after every single notification: a record that is '
+        'live and was in the API\'s last /finished listing, or that is a row of a present snapshot that was in its last '
+        '/finished.history listing (both observed at its client), is returned by API.get with its own host and state and is part '
+        'of API.list(finished=True) - in particular a record archived between the API\'s listing of /finished and its read of the '
+        'node, looked up before the removal from /finished is announced.')
 ASSUMPTIONS = ['in-memory ZooKeeper fake; a crash = the k-th mutating call of the archiver session raises a BaseException and nothing of that session is applied afterwards',
                'virtual clock with zero tick (time.time constant during a run); node mtimes set by the harness',
-               'tempfile.tempdir redirected to a per-case directory (a dying archiver leaks its temp file by nature)']
+               'tempfile.tempdir redirected to a per-case directory (a dying archiver leaks its temp file by nature)',
+               'racing-reader cells: the state API and the archiver are two sessions of the fake; the archiver iteration runs to '
+               'completion inside one ZooKeeper read of the API (hook at the start of the read), watch notifications of the API '
+               'session are queued and delivered one at a time in write order; the API client\'s get / get_children are wrapped '
+               'transparently (record the listing, count reads that met no node; a falsy watch argument registers no watch, as in kazoo)']
 BUDGET = {'quick': (14, 22.0), 'thorough': (260, 280.0)}
 REQUIRED_REACH = {'*': ['trace_reader_checked', 'trace_reader_instance_in_non_adjacent_snapshots', 'cuts', 'cuts_mid_run', 'batches_archived', 'young_or_scheduled_kept', 'history_pruned', 'download_batch_checked', 'bulky_cases', 'state_api_listings_behind_1000_newer_records',
                         'server_trace_reader_archived_events_of_removed_and_configured_again_server',
                         'server_trace_reader_archived_events_of_configured_server',
-                        'list_traces_app_with_live_and_archived_instances']}
+                        'list_traces_app_with_live_and_archived_instances',
+                        'archiver_runs_inside_a_read_sequence_of_the_state_api', 'state_api_lookups_next_to_running_archiver',
+                        'state_api_lookup_of_archived_record_before_the_removal_is_announced',
+                        'state_api_lookup_of_record_archived_between_listing_and_read']}
 
 NOW = 1700000000.0
 
@@ -168,6 +184,209 @@ def listing_case(ctx, idx, rng):
         shutil.rmtree(tmp, ignore_errors=True)
 
 
+RACING_WORLDS = 8
+
+
+def racing_reader_case(ctx, idx, rng):
+    """The retrieval side WHILE the archiver runs: the REAL state API (treadmill.api.state.API with its five watchers)
+    reads a cell whose finished records the REAL archiver moves into snapshots at that very moment.  Per world
+    (RACING_WORLDS small cells): 3-16 finished records (most of them expired), batch sizes 1-4, optionally an earlier
+    archiving pass; the reader's watch notifications are queued and delivered one at a time (kazoo's single callback
+    thread); one iteration of the archiver service runs at a seeded ZooKeeper read of the reader - during its start-up
+    (mode start-up) or during the callback of a later /finished notification after further records were written (mode
+    lagging-watch); past the reader's last read it runs right after.  The oracle is evaluated after the start-up and after
+    every single delivered notification, from what the reader has been TOLD (its last listing of /finished and of
+    /finished.history, observed at its client): a record that is live and was in its last /finished listing, or that is a
+    row of a present snapshot that was in its last /finished.history listing, is returned by API.get with its own host
+    and is part of API.list(finished=True).  (Nothing is demanded for a record the reader has not been told about yet.)"""
+    for world in range(RACING_WORLDS):
+        _racing_world(ctx, idx, world, rng)
+    ctx.done(case_desc=None, nontrivial=False, evals=RACING_WORLDS)
+
+
+def _racing_world(ctx, idx, world, rng):
+    import json
+    import time
+    import kazoo.exceptions
+    from treadmill import context
+    from treadmill import zknamespace as z
+    from treadmill.api import state as api_state
+    from treadmill.sproc import trace as sproc_trace
+    cleanup_cmd = sproc_trace.init().commands['cleanup']
+    clock = env.VClock(base=NOW, tick=0.0)
+    clock.install()
+    tmp = tempfile.mkdtemp(prefix='vf-c18-', dir='/dev/shm' if os.path.isdir('/dev/shm') and os.access('/dev/shm', os.W_OK) else None)
+    old_tmp = tempfile.tempdir
+    tempfile.tempdir = tmp
+    old_cell = context.GLOBAL.get('cell', resolve=False)
+    try:
+        srv = zkfake.ZkServer(clock=clock.peek)
+        srv.child_order, srv.order_salt = 'hash', '%d-%d' % (idx, world)
+        adm = srv.client('admin')
+        for p in (z.SCHEDULED, z.RUNNING, z.FINISHED, z.TRACE_HISTORY, z.FINISHED_HISTORY, z.SERVER_TRACE_HISTORY):
+            adm.ensure_path(p)
+        for sh in z.trace_shards() + z.server_trace_shards():
+            adm.ensure_path(sh)
+        fexpires = rng.choice([60, 300])
+        fbatch = rng.randint(1, 4)
+        mode = rng.choice(['start-up', 'start-up', 'lagging-watch'])
+        records = {}
+        serial = [0]
+
+        def finish(expired):
+            serial[0] += 1
+            name = 'proid.app%d#%010d' % (rng.randint(0, 1), serial[0])
+            when = NOW - fexpires + (-rng.choice([1, 50, 4000]) - rng.random() if expired else rng.choice([1, 40]))
+            rec = dict(state=rng.choice(['finished', 'finished', 'killed', 'aborted']), host='host%d' % rng.randint(0, 9),
+                       when=when, data=rng.choice(['0.0', '1.0', '256.9', 'oom']))
+            adm.create(z.path.finished(name), json.dumps(rec).encode())
+            srv.nodes[z.path.finished(name)].mtime = int(when * 1000)
+            records[name] = rec
+
+        def archiver(tag):
+            """One iteration of the real archiver service on a session of its own."""
+            conn = getattr(context.GLOBAL.zk, '_conn', None)   # pylint: disable=protected-access
+            context.GLOBAL.zk._conn = srv.client(tag)          # pylint: disable=protected-access
+            real_sleep = time.sleep
+
+            def stop(_secs):
+                raise _Stop()
+            time.sleep = stop
+            try:
+                cleanup_cmd.callback(
+                    interval=60, trace_evictions_max_count=1000, trace_service_events_max_count=1000,
+                    trace_batch_size=50, trace_expire_after=300, trace_history_max_count=5,
+                    finished_batch_size=fbatch, finished_expire_after=fexpires, finished_history_max_count=100,
+                    no_lock=True)             # (the history cap keeps every snapshot of this world)
+            except _Stop:
+                pass
+            finally:
+                time.sleep = real_sleep
+                context.GLOBAL.zk._conn = conn                  # pylint: disable=protected-access
+
+        for _ in range(rng.randint(3, 16)):
+            finish(rng.random() < 0.8)
+        if rng.random() < 0.4:
+            archiver('archiver-earlier')                        # an earlier pass: snapshots exist when the reader starts
+            for _ in range(rng.randint(2, 8)):
+                finish(rng.random() < 0.8)
+
+        # the reader: its client is observed at the boundary (what it listed, which reads met no node)
+        reader = srv.client('state-api')
+        told = {}
+        vanished = set()
+        reads = [0]
+        trigger = [None]
+        real_children, real_get = reader.get_children, reader.get
+
+        def get_children(path, watch=None, include_data=False):
+            res = real_children(path, watch=watch, include_data=include_data)
+            told[path] = set(res[0] if include_data else res)
+            return res
+
+        def get(path, watch=None):
+            try:
+                # (kazoo registers no watch for a falsy `watch`; zkutils.get_default(zkclient, path, {}) passes {})
+                return real_get(path, watch=watch or None)
+            except kazoo.exceptions.NoNodeError:
+                if os.path.dirname(path) == z.FINISHED:
+                    vanished.add(os.path.basename(path))
+                    ctx.count('state_api_reader_read_of_listed_finished_record_met_no_node')
+                raise
+        reader.get_children, reader.get = get_children, get
+
+        def on_op(client, _op, _path):
+            if client is reader and trigger[0] is not None:
+                reads[0] += 1
+                if reads[0] == trigger[0]:
+                    trigger[0] = None
+                    ctx.count('archiver_runs_inside_a_read_sequence_of_the_state_api')
+                    archiver('archiver-racing')
+        srv.on_op = on_op
+        srv.sync_delivery = False
+
+        def evaluate(stage):
+            live = set(srv.children(z.FINISHED))
+            snaps = set(srv.children(z.FINISHED_HISTORY))
+            in_snapshot = {}
+            for sn in snaps:
+                for _path, name in rows_of(srv.nodes[z.path.finished_history(sn)].data, 'finished'):
+                    in_snapshot.setdefault(name, sn)
+            known = {}
+            for name in records:
+                if name in live and name in told.get(z.FINISHED, ()):
+                    known[name] = 'live'
+                elif name in in_snapshot and in_snapshot[name] in told.get(z.FINISHED_HISTORY, ()):
+                    known[name] = 'archived'
+            on_op_was, srv.on_op = srv.on_op, None
+            try:
+                listed = {i['name'] for i in api.list(match='proid.*', finished=True)}
+                for name, where in sorted(known.items()):
+                    ctx.count('state_api_lookups_next_to_running_archiver')
+                    pending = where == 'archived' and name in told.get(z.FINISHED, ())
+                    if pending:
+                        # archived, its snapshot announced to the reader, the removal from /finished not yet
+                        ctx.count('state_api_lookup_of_archived_record_before_the_removal_is_announced')
+                        if name in vanished:
+                            ctx.count('state_api_lookup_of_record_archived_between_listing_and_read')
+                    got = api.get(name)
+                    case = dict(case=idx, world=world, mode=mode, fbatch=fbatch, stage=stage)
+                    if got is None or got.get('host') != records[name]['host'] or got.get('state') != records[name]['state']:
+                        ctx.violation('state-api-get-misses-%s-finished-record:reader-next-to-running-archiver%s' % (
+                            where, ':removal-not-yet-announced' if pending else ''),
+                                      '%s (%s; %s): the record is %s and the state API has been told so, API.get returned %r' % (
+                                          name, mode, stage, 'live' if where == 'live' else 'a row of the present snapshot %s' % in_snapshot[name],
+                                          got), case=case)
+                    elif name not in listed:
+                        ctx.violation('state-api-listing-misses-%s-finished-record:reader-next-to-running-archiver' % where,
+                                      '%s (%s; %s): API.get finds the record, API.list(finished=True) does not' % (name, mode, stage),
+                                      case=case)
+            finally:
+                srv.on_op = on_op_was
+
+        context.GLOBAL.cell = 'vfcell'
+        context.GLOBAL.zk._conn = reader       # pylint: disable=protected-access
+        n_reads = 8 + len(srv.children(z.FINISHED)) + len(srv.children(z.FINISHED_HISTORY))
+        if mode == 'start-up':
+            trigger[0] = rng.randint(1, n_reads)
+        api = api_state.API()
+        if mode == 'lagging-watch':
+            # the cell goes on: further records are written, the reader learns of them by a notification, and the
+            # archiver runs while the reader's callback reads them
+            evaluate('started')
+            more = rng.randint(2, 8)
+            for _ in range(more):
+                finish(rng.random() < 0.85)
+            trigger[0] = rng.randint(1, more + 2)
+        elif trigger[0] is not None:
+            trigger[0] = None
+            archiver('archiver-after-start-up')
+        evaluate('started')
+        deliveries = 0
+        while srv.pending:
+            srv.deliver(limit=1)
+            deliveries += 1
+            if trigger[0] is not None and not srv.pending:
+                trigger[0] = None
+                archiver('archiver-after-callback')
+            evaluate('after-notification-%d' % deliveries)
+            if deliveries > 200:
+                raise RuntimeError('racing reader world does not quiesce')
+        ctx.count('state_api_reader_racing_worlds:' + mode)
+        # at quiescence the reader has been told everything: every record is live or archived, and retrievable
+        srv.on_op = None
+        lost = sorted(set(records) - set(srv.children(z.FINISHED)) - {n for n in records if api.get(n)})
+        if lost:
+            ctx.violation('state-api-get-misses-finished-record:quiescent-reader-after-racing-archiver',
+                          'records %s neither live nor returned by API.get after all notifications were delivered' % lost[:3],
+                          case=dict(case=idx, world=world, mode=mode, fbatch=fbatch))
+    finally:
+        context.GLOBAL.set('cell', old_cell)
+        env.VClock.uninstall()
+        tempfile.tempdir = old_tmp
+        shutil.rmtree(tmp, ignore_errors=True)
+
+
 def run(ctx):
     import time
     from treadmill import context
@@ -203,6 +422,8 @@ def _cases(ctx, reader_tmp):
     for idx, rng in ctx.cases():
         if idx == 2:
             listing_case(ctx, idx, rng)
+            # (own random stream: the listing case is what it was)
+            racing_reader_case(ctx, idx, ctx.case_rng(idx, 'racing-reader'))
             continue
         # the earlier archiving pass (round 0) happens a little before the run under test (everything round 0 writes
         # is at least 2750 s older than any expiry, so ten seconds change nothing of what it archives)
